@@ -39,6 +39,29 @@ impl C07 {
 			let b = crate::gen::build(&s, &mut rng);
 			seeds.push(Seed { name: s.describe(), bytes: b.bytes, model: b.truth });
 		}
+		// the same files as a *newer* recorder would label them (version above the supported maximum,
+		// identical payload sizes): a reader that treats "newer than I know" specially must still reject
+		// every proper prefix. Only the version bytes of Game Start change. (.slpp cannot hold them: C09.)
+		let n0 = seeds.len();
+		for (k, nv) in [(3u8, 17u8, 0u8), (3, 255, 7), (4, 0, 0), (255, 255, 255)].into_iter().enumerate() {
+			// sources: the seeds whose layout is the newest one (payload sizes a newer file would also have)
+			let newest: Vec<usize> = (0..n0).filter(|i| seeds[*i].model.version.0 == 3 && seeds[*i].model.version.1 >= 14 && seeds[*i].bytes.len() >= 32 && seeds[*i].bytes[15] == 0x35).collect();
+			if newest.is_empty() {
+				continue;
+			}
+			let src = &seeds[newest[k % newest.len()]];
+			let vo = 15 + 1 + src.bytes[16] as usize + 1;
+			if src.bytes.get(vo - 1) != Some(&0x36) || src.bytes[vo] != src.model.version.0 || src.bytes[vo + 1] != src.model.version.1 {
+				continue;
+			}
+			let mut b = src.bytes.clone();
+			b[vo] = nv.0;
+			b[vo + 1] = nv.1;
+			b[vo + 2] = nv.2;
+			let mut m = src.model.clone();
+			m.version = nv;
+			seeds.push(Seed { name: format!("{} relabelled v{}.{}.{}", src.name, nv.0, nv.1, nv.2), bytes: b, model: m });
+		}
 		let mut slpp = vec![];
 		for (i, s) in seeds.iter().enumerate() {
 			for comp in Comp::ALL {
